@@ -195,6 +195,21 @@ Proof.
 Qed.
 Print Assumptions C11_fuzzy_lookup_returns_the_matching_entries.
 
+(* ENUMERATION of that file: exactly the (syllables, phrase) pairs the entry list holds - a re-inserted string under a
+   key replaced the earlier one - and nothing else *)
+Theorem C11_enumeration_yields_the_inserted_set : forall info es bytes,
+  info_ok info -> root_ok (build es) -> write info (build es) = Ok bytes ->
+  exists tr out, open bytes = Ok tr /\ entries tr = Ok out /\
+    forall k p, In (k, p) out <-> exists ps, phrases_for es k = Some ps /\ In p ps.
+Proof.
+  intros info es bytes Hi Hr Hw.
+  destruct (write_read info (build es) bytes Hi Hr Hw) as (tr & Ho & _ & _ & (out & He & Hp)).
+  exists tr, out. split; [exact Ho|]. split; [exact He|]. intros k p. rewrite <- entries_build. split; intros H.
+  - eapply Permutation_in; [exact Hp | exact H].
+  - eapply Permutation_in; [apply Permutation_sym; exact Hp | exact H].
+Qed.
+Print Assumptions C11_enumeration_yields_the_inserted_set.
+
 (* the order `klt` is the strict lexicographic order: irreflexive, so a strictly ascending list has no key twice *)
 Theorem C11_key_order_is_strict : forall k, ~ klt k k.
 Proof. induction k as [|x k IH]; cbn [klt]; [tauto|]. intros [H|[_ H]]; [exact (N.lt_irrefl _ H) | exact (IH H)]. Qed.
